@@ -285,6 +285,11 @@ func eventPool() []event {
 		mkEvent(5, "ı", "a", "İ"),
 		mkEvent(5, "Ab", "b", "ab"),
 		mkEvent(5, "ba", "a", "ba"),
+		// field names differing in letter case only: the name is taken as written (fields:Level is not fields:level)
+		mkEvent(5, "lv1", "Level", "ab", "level", "zz"),
+		mkEvent(5, "lv2", "level", "ab", "Level", "zz"),
+		mkEvent(5, "lv3", "Level", "a"),
+		mkEvent(5, "lv4", "level", "a", "a", "Level"),
 		// around numeric literals of nanosecond magnitude and the int64 extremes
 		mkEvent(bigT-21, "t-21", "a", "t"),
 		mkEvent(bigT-1, "t-1", "a", "t"),
@@ -314,7 +319,7 @@ var tsVals = []valT{{"10", "10"}, q("10"), q("-5"), {"0", "0"}, q(absDate), q("a
 // literals for the atoms inside larger shapes: small, the date, nanosecond magnitudes, the extremes
 var tsGood = []valT{{"10", "10"}, q("10"), q("-5"), {"0", "0"}, q(absDate), {"1552307683123456789", "1552307683123456789"}, {"1500000000000000001", "1500000000000000001"},
 	{"9223372036854775807", "9223372036854775807"}, q("-9223372036854775808")}
-var operands = []string{"msg", "MSG", "Msg", "ts", "TS", "fields:a", "fields:b", "Fields:a", "FIELDS:A", "fields:zz", "fields:", "fields:fields:a", "tags", "limit", "field:a", "fields:aa"}
+var operands = []string{"msg", "MSG", "Msg", "ts", "TS", "fields:a", "fields:b", "Fields:a", "FIELDS:A", "fields:zz", "fields:", "fields:fields:a", "tags", "limit", "field:a", "fields:aa", "fields:Level"}
 var wrappers = []string{"", "upper", "LOWER", "lower", "Upper", "lower(upper", "upper(lower", "upper(upper", "trim", "upper,2", "lower(trim", "like"}
 var opsAll = []string{"<", ">", ">=", "<=", "!=", "=", "contains", "CONTAINS", "PREFIX", "Prefix", "suffix", "LIKE", "like", "liKe"}
 
@@ -1548,9 +1553,9 @@ type e2eEvent struct {
 }
 
 func e2eEvents() []e2eEvent {
-	msgs := []string{"ab", "", "A b", "zzab", "é[", "abc", "a", "A", "aB", "a*", "[", "x y", "\xff", "a/b", "10", "9", "É", "bx", "cx", "AB", "b", "zz", "aa", "?", "abcabc", "K", "k", "Ab", "ba", "a\xc3"}
+	msgs := []string{"ab", "", "A b", "zzab", "é[", "abc", "a", "A", "aB", "a*", "[", "x y", "\xff", "a/b", "10", "9", "É", "bx", "cx", "AB", "b", "zz", "aa", "?", "abcabc", "K", "k", "Ab", "ba", "a\xc3", "lv1", "lv2"}
 	flds := []string{"a=ab,b=10", "a=,a=second", "a=x,a=y", "b=B", "zz=a*,a=b", "a=abc", "", "A=upper", "a=aB,b=", "a=a*", "a=[", "a=x y,b=9", "a=\xff\xfe", "a=a/b,b=a",
-		"a=10,b=9", "a=9,b=10", "a=É", "a=bx", "a=cx,b=bx", "a=AB", "a=b,b=b", "a=zz", "a=aa,a=", "a=?", "a=abcabc", "a=K", "a=k", "b=ab", "a=ba", "b=a\xc3"}
+		"a=10,b=9", "a=9,b=10", "a=É", "a=bx", "a=cx,b=bx", "a=AB", "a=b,b=b", "a=zz", "a=aa,a=", "a=?", "a=abcabc", "a=K", "a=k", "b=ab", "a=ba", "b=a\xc3", "Level=ab,level=zz", "level=ab,Level=zz"}
 	var evs []e2eEvent
 	for i := range msgs {
 		evs = append(evs, e2eEvent{Part: i % 2, Ts: int64(i + 1), Msg: msgs[i], Fields: flds[i]})
@@ -1650,7 +1655,7 @@ func sectionE2E(rng *vh.Rng, extra []e2eCase) {
 	cases = append(cases, extra...)
 	fixed := []string{
 		`msg contains "a"`, `NOT msg contains "a"`, `fields:a = ""`, `fields:zz = ""`, `fields:a = "x"`, `fields:a = "y"`, `fields:a != "x" AND fields:a != ""`,
-		`ts < 10`, `ts <= 10`, `ts > 10`, `ts >= 10`, `ts >= "-5" AND ts <= 0`, `ts < "` + absDate + `"`, `ts <= "` + absDate + `"`, `NOT ts > "` + absDate + `"`,
+		`fields:Level = "ab"`, `fields:level = "ab"`, `NOT FIELDS:Level contains "z"`, `ts < 10`, `ts <= 10`, `ts > 10`, `ts >= 10`, `ts >= "-5" AND ts <= 0`, `ts < "` + absDate + `"`, `ts <= "` + absDate + `"`, `NOT ts > "` + absDate + `"`,
 		`msg like "a*"`, `msg like "["`, `fields:a like "[a-c]x"`, `upper(msg) = "AB"`, `upper(msg) contains "AB"`, `lower(fields:a) prefix "a"`, `upper(fields:a) >= "B"`,
 		`msg contains "a" OR msg contains "b" AND NOT fields:a = "b"`, `(msg contains "a" OR msg contains "b") AND NOT fields:a = "b"`,
 		`NOT (msg contains "a" OR msg contains "b")`, `NOT msg contains "a" OR msg contains "b"`, `tags = "x"`, `msg = "a"`, `ts = 10`, `fields: = "a"`, `trim(msg) contains "a"`,
@@ -2144,6 +2149,14 @@ func sectionCorpus() (e2eExtra []e2eCase) {
 			continue
 		}
 		switch r.Section {
+		case "tsorder":
+			if c, ok := tsOrderFromRecorded(r.Input); ok {
+				if c.Extra != "" {
+					tsExtraCheck(sec, *c)
+				} else {
+					tsCheck(sec, *c, "corpus|"+f)
+				}
+			}
 		case "where", "corpus":
 			if c, ok := whereFromRecorded(r); ok {
 				cases = append(cases, c)
@@ -2207,6 +2220,12 @@ func replay(path string) {
 			}
 			checkFiter(c, l, im, outs[1:])
 		}
+	case "tsorder":
+		c, ok := tsOrderFromRecorded(r.Input)
+		if !ok {
+			res.Fatal(args.Out, "replay: bad tsorder input")
+		}
+		sectionTsOrder(vh.NewRng(args.Seed).Fork("tsorder"), c)
 	case "casemap":
 		var in map[string]string
 		json.Unmarshal(r.Input, &in)
@@ -2296,6 +2315,8 @@ func main() {
 	sectionFieldsValue(rng.Fork("fieldsvalue"))
 	res.Write(args.Out)
 	sectionWhere(rng.Fork("where"))
+	res.Write(args.Out)
+	sectionTsOrder(rng.Fork("tsorder"), nil)
 	res.Write(args.Out)
 	sectionFiter(rng.Fork("fiter"))
 	res.Write(args.Out)
